@@ -5,7 +5,12 @@
    What the model takes from the code (regenerated into Gen/ClassConst.v on every run):
    the list of parser.Node fields walkNode traverses (which positions are visited), the
    built-in tables, whether imports without "as" are collected, whether the class's own name
-   is removed, the risk comparisons; thresholds from Gen/DomainConst.v. *)
+   is removed, whether Attribute / Subscript nodes are read through Value / Name, the risk
+   comparisons; thresholds from Gen/DomainConst.v.
+
+   Dependency names: a class written X is listed as "X", a class written mod.X as "mod.X"
+   (extractClassName joins the dotted name).  Module qualifiers and imported module names are
+   single identifiers here (import a.b / a.b.X is outside Class/Syntax.v). *)
 From Coq Require Import ZArith NArith List String Bool.
 From PV Require Import Gen.DomainConst Gen.ClassConst Class.Syntax Class.SetK.
 Import ListNotations.
@@ -40,15 +45,23 @@ Definition collect_imports (f : file) : list name :=
 Definition should_include (o : cbo_options) (n : name) : bool :=
   negb (n =? 0) && negb (builtin_function n) && negb (negb (o_include_builtins o) && builtin_type n).
 
-(* extractClassName cbo.go:445-476 on a base class / annotation node: a Name gives its name; an
+(* extractClassName cbo.go on a base class / annotation / callee node: a Name gives its name; an
    Attribute node (mod.X) keeps its object in Value and its attribute in Name, the function
-   reads Left and Right, which are nil: "" *)
-Definition extract_class_name (r : cref) : option name :=
-  if is_plain r then Some (snd r) else None.
+   joins them: "mod.X" ("" when a part is empty).  (Before fix: aa7c715 it read Left and Right,
+   which are nil for an Attribute node: finding F29; Gen/ClassConst.v:cbo_reads_value_field.) *)
+Definition extract_class_name (r : cref) : option cref :=
+  if snd r =? 0 then None
+  else if is_plain r then Some r
+  else if cbo_reads_value_field then Some r else None.
+
+(* shouldIncludeDependency on the extracted name: a dotted name "mod.X" is in neither built-in
+   table (CBOProofs.v:builtin_tables_undotted) *)
+Definition should_include_ref (o : cbo_options) (r : cref) : bool :=
+  if is_plain r then should_include o (snd r) else true.
 
 Definition dep_of_name (o : cbo_options) (r : cref) : list cref :=
   match extract_class_name r with
-  | Some n => if should_include o n then [Plain n] else []
+  | Some n => if should_include_ref o n then [n] else []
   | None => []
   end.
 
@@ -56,31 +69,23 @@ Definition dep_of_name (o : cbo_options) (r : cref) : list cref :=
 Definition analyze_inheritance (o : cbo_options) (c : class) : list cref :=
   flat_map (dep_of_name o) (c_bases c).
 
-(* extractTypeAnnotationDependencies cbo.go:223-291.
-   The operands of X | Y are parsed as *expressions* (tree-sitter binary_operator), so a generic
-   there is a Subscript node, not a generic_type node: buildSubscript keeps only the first
-   subscript argument in Children, and the NodeSubscript case looks at Children[1] only when there
-   are at least two children: nothing is extracted from the generic in Y | List[X].  When the
-   LEFT operand is a generic the whole annotation is a tree-sitter union_type node instead, which
-   the analyser does not recognise at all (List[X] | Y contributes neither X nor Y).  Unions of
-   three or more operands whose leftmost operand is a generic are outside the correspondence. *)
-Fixpoint expr_annotation_deps (o : cbo_options) (t : ty) : list cref :=
-  match t with
-  | TRef r => dep_of_name o r
-  | TUnion a b => expr_annotation_deps o a ++ expr_annotation_deps o b
-  | TGen1 _ _ | TGen2 _ _ _ => []                 (* NodeSubscript with a single child *)
-  | TNone | TStr => []
-  end.
+(* extractTypeAnnotationDependencies cbo.go.  An annotation reaches the analyser in one of
+   several node shapes, depending on how tree-sitter reads it:
+     X, mod.X                 Name / Attribute                               -> the class
+     List[X]                  generic_type (identifier[...])                 -> its type_parameter children
+     typing.List[X]           Subscript (Value = container, Children = args) -> its children
+     X | Y, X | List[Y]       BinOp "|" whose operands are EXPRESSIONS (a generic there is a Subscript)
+     List[X] | Y              union_type (a union whose first member is a generic_type) -> its members
+   In every shape the classes named as type arguments and union members are extracted, recursively;
+   the container of a generic is not.  So one function describes all of them.  (Before
+   fix: aa7c715 / b2f1993 a Subscript contributed nothing, a union_type was not recognised, and the
+   parser kept only the first subscript argument: findings F31, F41.) *)
 Fixpoint type_annotation_deps (o : cbo_options) (t : ty) : list cref :=
   match t with
   | TRef r => dep_of_name o r                     (* NodeName / NodeAttribute *)
-  | TGen1 _ a => type_annotation_deps o a         (* generic_type: only the type_parameter children *)
+  | TGen1 _ a => type_annotation_deps o a         (* generic_type / Subscript: only the type arguments *)
   | TGen2 _ a b => type_annotation_deps o a ++ type_annotation_deps o b
-  | TUnion a b =>
-      match a with
-      | TGen1 _ _ | TGen2 _ _ _ => []             (* List[X] | Y: a tree-sitter union_type node, which isTypeAnnotation does not list *)
-      | _ => expr_annotation_deps o a ++ expr_annotation_deps o b   (* BinOp "|" *)
-      end
+  | TUnion a b => type_annotation_deps o a ++ type_annotation_deps o b   (* BinOp "|" / union_type *)
   | TNone | TStr => []                            (* Constant: not a type annotation node *)
   end.
 Definition opt_annotation_deps (o : cbo_options) (t : option ty) : list cref :=
@@ -98,24 +103,33 @@ Definition member_type_hints (o : cbo_options) (m : member) : list cref :=
 Definition analyze_type_hints (o : cbo_options) (c : class) : list cref :=
   if members_reached then flat_map (member_type_hints o) (c_members c) else [].
 
-(* analyzeInstantiationAndAccess cbo.go:318-385, NodeCall case, with extractClassNameFromCallNode
-   523-559: the callee is Call.Value; only a Name callee yields a class name.  (The NodeAssign
-   case repeats the NodeCall case for the same node; the NodeAttribute case reads Left, which
+(* analyzeInstantiationAndAccess cbo.go, NodeCall case, with extractClassNameFromCallNode: the
+   callee is Call.Value; a Name callee yields its name, an Attribute callee its dotted name
+   (extractClassNameFromAttribute = extractClassName).  X counts when X is an imported name, a
+   class of the file, or (include_builtins) a built-in type; mod.X counts when mod is an imported
+   name (isImportedDependency: the part before the first dot).  (The NodeAssign case repeats the
+   NodeCall case for the same node; the NodeAttribute case of the walk reads Left, which
    buildAttribute never sets.) *)
 Definition call_dep (o : cbo_options) (imports classes : list name) (r : cref) : list cref :=
-  if is_plain r then
-    let n := snd r in
-    if should_include o n &&
-       (mem n imports || mem n classes || (o_include_builtins o && builtin_type n))
-    then [Plain n] else []
-  else [].
+  match extract_class_name r with
+  | None => []
+  | Some r =>
+      if is_plain r then
+        let n := snd r in
+        if should_include o n &&
+           (mem n imports || mem n classes || (o_include_builtins o && builtin_type n))
+        then [r] else []
+      else if should_include_ref o r && mem (fst r) imports then [r] else []
+  end.
 (* A node is visited iff every field on its path is traversed; this presupposes that no visitor
    cuts the walk on the way (all visitors return true): Gen/ClassConst.v:cbo_walk_never_pruned,
    which CBOProofs.v:code_flags / Props/C13.v:C13_walk_never_pruned require to be true. *)
 Definition mention_dep (o : cbo_options) (imports classes : list name) (m : mention) : list cref :=
   match m_kind m with
   | KInst r => if reached_at cbo_walk_fields 0 (m_pos m) (m_slots m) [] then call_dep o imports classes r else []
-  | KAttr _ _ | KCall _ _ => []
+  | KCall obj x =>      (* obj.x(): the same Call node with an Attribute callee as mod.X() *)
+      if reached_at cbo_walk_fields 0 (m_pos m) (m_slots m) [] then call_dep o imports classes (Qual obj x) else []
+  | KAttr _ _ => []
   end.
 Definition member_mentions (m : member) : list mention :=
   match m with
@@ -164,8 +178,9 @@ Definition member_annotations (m : member) : list ty :=
   | MMethod md => flat_map (fun o => match o with Some t => [t] | None => [] end) (md_params md ++ [md_ret md])
   | MStmt _ => []
   end.
+(* the callee of a call: X(...), mod.X(...); obj.x(...) is the same syntax as mod.X(...) *)
 Definition instantiated (m : mention) : list cref :=
-  match m_kind m with KInst r => [r] | _ => [] end.
+  match m_kind m with KInst r => [r] | KCall obj x => [Qual obj x] | KAttr _ _ => [] end.
 
 (* every class the class names: as base class, in attribute / parameter / return annotations
    (inside generics and unions), as instantiation of an imported or same-file class in ANY
